@@ -71,6 +71,10 @@ pub enum Prior {
     OtherVersion,
     /// a record of *another kind* held under the same key (a scratchpad and a transaction of one owner share their key)
     OtherKind,
+    /// another version was accepted earlier but its disk write failed (the record's file name was not writable) and the
+    /// store cleaned up after the failure: the node does not hold the address — nothing on disk, nothing listed, nothing
+    /// it would replicate or serve after a restart. Used by the unpaid uploads only.
+    FailedWrite,
 }
 
 #[derive(Clone, Debug)]
@@ -225,7 +229,7 @@ pub fn run_case(run: &Run, stub: &Arc<EvmStub>, c: &Case) {
     // prior content arrives through replication (no payment involved)
     stub.set(Chain::Paid);
     match c.prior {
-        Prior::Absent => {}
+        Prior::Absent | Prior::FailedWrite => {} // (FailedWrite is a prior of the unpaid uploads only)
         Prior::SameVersion => {
             let n = rig.node.clone();
             let r = up.prior_same.clone();
@@ -338,9 +342,9 @@ pub fn run_case(run: &Run, stub: &Arc<EvmStub>, c: &Case) {
 /// Unpaid uploads: accepted only as updates to mutable records the node already holds.
 fn unpaid_cases(run: &Run, stub: &Arc<EvmStub>) {
     for kind in KINDS {
-        for prior in [Prior::Absent, Prior::SameVersion, Prior::OtherVersion, Prior::OtherKind] {
+        for prior in [Prior::Absent, Prior::SameVersion, Prior::OtherVersion, Prior::OtherKind, Prior::FailedWrite] {
             let up = upload_for(kind);
-            if prior == Prior::OtherVersion && up.prior_other.is_none() {
+            if matches!(prior, Prior::OtherVersion | Prior::FailedWrite) && up.prior_other.is_none() {
                 continue;
             }
             if prior == Prior::OtherKind && up.prior_other_kind.is_none() {
@@ -363,7 +367,21 @@ fn unpaid_cases(run: &Run, stub: &Arc<EvmStub>) {
                     let (n, r) = (rig.node.clone(), up.prior_other_kind.clone().unwrap());
                     let _ = rig.run("prior", async move { n.store_replicated_in_record(r).await });
                 }
+                Prior::FailedWrite => {
+                    // a directory squats on the record's file name while the earlier version is written; afterwards the
+                    // disk takes writes again
+                    let squat = root.join("record_store").join(hex::encode(up.key.as_ref()));
+                    std::fs::create_dir_all(&squat).expect("squat");
+                    let (n, r) = (rig.node.clone(), up.prior_other.clone().unwrap());
+                    let _ = rig.run("prior", async move { n.store_replicated_in_record(r).await });
+                    rig.settle();
+                    let _ = std::fs::remove_dir(&squat);
+                    if squat.exists() {
+                        run.machinery_error("C03: the squatting directory could not be removed again");
+                    }
+                }
             }
+            let file_of_key = root.join("record_store").join(hex::encode(up.key.as_ref()));
             let before = rig.stored(&up.key);
             let (n, r) = (rig.node.clone(), up.prior_same.clone());
             let res = rig.run("unpaid", async move { n.validate_and_store_record(r).await });
@@ -371,10 +389,18 @@ fn unpaid_cases(run: &Run, stub: &Arc<EvmStub>) {
             let desc = json!({"unpaid_upload": format!("{kind:?}"), "prior": format!("{prior:?}")});
             run.case(desc.to_string().as_bytes(), true);
             // "held" = the node holds a record of the uploaded kind under the key (a record of another kind is not something this upload can update)
-            let held = before.is_some() && prior != Prior::OtherKind;
+            let held = before.is_some() && !matches!(prior, Prior::OtherKind | Prior::FailedWrite);
             let mutable_updatable = matches!(kind, Kind::Scratchpad | Kind::Register);
             if prior == Prior::OtherKind && after != before {
                 run.violation("unpaid-needs-held-record", "replaced-a-record-of-another-kind", format!("an unpaid upload changed what the node holds under a key occupied by a record of another kind: {desc} -> {res:?}"), json!({"case": desc}));
+            }
+            if prior == Prior::FailedWrite && (matches!(res, Some(Ok(()))) || after.is_some() || file_of_key.exists()) {
+                run.violation(
+                    "unpaid-needs-held-record",
+                    "leftover-of-a-failed-write-counts-as-held",
+                    format!("the only earlier version of this address was never written (its disk write failed), yet an unpaid upload was answered {res:?}; readable afterwards: {}, file on disk: {} ({desc})", after.is_some(), file_of_key.exists()),
+                    json!({"case": desc}),
+                );
             }
             if before.is_none() && after.is_some() {
                 run.violation("unpaid-needs-held-record", "stored-new", format!("an unpaid upload created a record: {desc} -> {res:?}"), json!({"case": desc}));
